@@ -533,4 +533,69 @@ theorem getRoute_ref (sat : Nat → Bytes → Bool) (R : List Route) (hR : Norma
           exact better_static_dyn _ _ _ _ hss hcns hsmatch hcmatch
       simp [okOf, href, hsrm, pushAll]
 
+
+/-- **Soundness of `getRoute`, without any guard**: the leaf returned belongs to a registered route of
+the tree whose pattern matches the path. -/
+theorem getRoute_sound (sat : Nat → Bytes → Bool) (R : List Route) (hR : NormalR R) (m : Bytes) (path : Bytes)
+    (hp : path.head? = some '/') (lf : Leaf) (ctx : Ctx)
+    (h : okOf (getRouteGen false sat (treeFor R m) path Ctx.fresh) = some (lf, ctx)) :
+    ∃ r ∈ R, r.method = m ∧ lf = leafOf r ∧
+      (matchPat (cutAny path).trail r.pat (cutAny path).segs).isSome = true := by
+  have hNP : ∀ r ∈ R, NormalPat r.text r.pat := fun r hr => (hR r hr).1
+  have hOK : ∀ r ∈ R, patOK r.pat := fun r hr => normal_patOK _ _ (hNP r hr)
+  have hpne : path ≠ [] := by intro e; rw [e] at hp; simp at hp
+  rw [treeFor_char R hNP m] at h
+  by_cases hroot : path = ['/']
+  · subst hroot
+    have hcut : cutAny ['/'] = ⟨[], false⟩ := by simp [cutAny]
+    rw [hcut]
+    have hget : getRouteGen false sat ⟨nodesOf (entriesOf R m), staticsOf R m⟩ ['/'] Ctx.fresh =
+        ((getK (nodesOf (entriesOf R m)) []).leaf, Ctx.fresh) := by simp [getRouteGen]
+    rw [hget, nodesOf_leaf _ (entriesOf_ok R hOK m)] at h
+    cases hl : lastSome (fun e : Entry => if strip e.pat [] = some [] then some e.lf else none) (entriesOf R m) with
+    | none => simp [okOf, hl] at h
+    | some lf' =>
+      obtain ⟨e, he, hfe⟩ := lastSome_some _ _ _ hl
+      obtain ⟨r, hr, hrm, _, rfl⟩ := mem_entriesOf he
+      rw [strip_nil_key, toEntry_pat] at hfe
+      by_cases hpe : r.pat = []
+      · simp only [hpe, if_true, Option.some.injEq] at hfe
+        simp only [okOf, hl, Option.map_some, Option.some.injEq, Prod.mk.injEq] at h
+        refine ⟨r, hr, hrm, ?_, by rw [hpe]; rfl⟩
+        rw [← h.1, ← hfe]; rfl
+      · simp [hpe] at hfe
+  · have hnr : ¬ (path = ['/'] ∨ path = []) := by intro h; rcases h with h | h <;> contradiction
+    have hsegs := cutAny_segs_ne path hp hroot
+    have hparse := parsePath_eq path hroot hpne
+    cases hs : getStatic path (staticsOf R m) with
+    | some lf' =>
+      have hget : getRouteGen false sat ⟨nodesOf (entriesOf R m), staticsOf R m⟩ path Ctx.fresh =
+          (some lf', Ctx.fresh) := by simp only [getRouteGen, hnr, if_false, hs]
+      rw [hget] at h
+      simp only [okOf, Option.map_some, Option.some.injEq, Prod.mk.injEq] at h
+      unfold staticsOf at hs
+      rw [getStatic_fold] at hs
+      have hs' : lastSome (fun r : Route => if r.text = path then some (leafOf r) else none)
+          (R.filter fun r => r.method = m && !inTree r) = some lf' := by
+        cases hl : lastSome (fun r : Route => if r.text = path then some (leafOf r) else none)
+            (R.filter fun r => r.method = m && !inTree r) with
+        | none => rw [hl] at hs; simp [getStatic] at hs
+        | some v => rw [hl] at hs; simpa using hs
+      obtain ⟨r, hr, hfr⟩ := lastSome_some _ _ _ hs'
+      have hr' := List.mem_filter.mp hr
+      simp only [Bool.and_eq_true, decide_eq_true_eq, Bool.not_eq_true'] at hr'
+      by_cases ht : r.text = path
+      · simp only [ht, if_true, Option.some.injEq] at hfr
+        obtain ⟨hss, hsne⟩ := notInTree r hr'.2.2
+        refine ⟨r, hr'.1, hr'.2.1, by rw [← h.1, ← hfr], ?_⟩
+        exact (static_text_iff r (hNP r hr'.1) hss hsne path hp).mp ht
+      · simp [ht] at hfr
+    | none =>
+      have hget : getRouteGen false sat ⟨nodesOf (entriesOf R m), staticsOf R m⟩ path Ctx.fresh =
+          walkGen false sat (nodesOf (entriesOf R m)) (cutAny path).trail [] Ctx.fresh (cutAny path).segs := by
+        simp only [getRouteGen, hnr, if_false, hs, hparse]
+      rw [hget] at h
+      obtain ⟨r, hr, hrm, _, hlf, hmatch⟩ := walk_sound sat R hOK m _ _ _ _ _ h
+      exact ⟨r, hr, hrm, hlf, hmatch⟩
+
 end Rivaas.RadixL
